@@ -421,10 +421,11 @@ def detect_one_letter_name(atoms: List[Atom]) -> str:
     return items[0][0]
 
 
-def try_parse_int(s: str) -> Optional[int]:
+def try_parse_int(s: Optional[str]) -> Optional[int]:
     try:
         return int(s)
-    except ValueError:
+    except (ValueError, TypeError):
+        # TypeError: the item is absent from the file (None), e.g. no auth_seq_id
         return None
 
 
